@@ -803,6 +803,17 @@ def relation_disagrees(f):
                     found.append({'member': v, 'action': vr['action'], 'library': vr['result'], 'reference_relation_holds': ref})
         if found:
             break
+    if not found:
+        # the library may be self-consistent over a WRONG generator basis (e.g. two positions sharing one generator: soundness needs them independent):
+        # compare the generators of this configuration with the independent derivation
+        class _F:
+            pass
+        g = _F()
+        g.cfg = {'scenario': 'gens', 'n': n, 'cap': cap, 'x': x}
+        g.detail = {'replay_cfg': g.cfg}
+        ok, det = generators_mismatch(g)
+        if ok:
+            return True, [{'generators of this configuration differ from the documented derivation / coincide': det}]
     return (len(found) > 0), found[:2]
 
 
